@@ -20,7 +20,10 @@ property oracle on the real code's outputs.  Streams:
       Compared with the model AND with the oracle (plain Python slicing, independent of the
       model): stored bytes read from the backend once the client holds the 226, bytes received
       before EOF, and stat / list size / a full RETR from a SECOND session.
-  (e) the restart offset across command sequences (offset_after) vs the real dispatcher.
+  (e) the restart offset across command sequences with RETRs anywhere in them, also back to back
+      over one passive listener (transfer_trace) vs the real dispatcher, and vs the plain-Python oracle
+      "REST applies to exactly the next transfer command".
+  (f) REST n + STOR/APPE on a MISSING file on all three backends: 451, nothing created, session goes on.
 
 Smoke test of the session driver:
     PYTHONPATH=/repo/src:. /venv/bin/python -c "from harness.props import c01; print(c01.smoke())"
@@ -58,7 +61,9 @@ LEVEL_TEXT = (
     "Proved for the model (Closed under the global context): C01_stor_exact, C01_stor_exact_conforming, C01_retr_exact, "
     "C01_retr_exact_segs, C01_stor_chunking_irrelevant, C01_retr_chunking_irrelevant, C01_upload_exact, C01_download_exact, "
     "C01_network_reads_conforming, C01_file_reads_conforming, C01_early_stop_impossible, C01_reply_after_close, "
-    "C01_visible_after_226, C01_later_retr_sees_new_content, C01_rest_survives, the write_at lemmas, and the closed obligations "
+    "C01_visible_after_226, C01_later_retr_sees_new_content, C01_rest_applies_to_next_transfer, C01_offset_applies_to_next_command_only, "
+    "C01_second_transfer_starts_at_0, C01_back_to_back (a restart offset is served to exactly the next transfer command), "
+    "C01_stor_missing_file (REST n + STOR/APPE on a missing file: 451, nothing created), the write_at lemmas, and the closed obligations "
     "C01_source_facts / C01_verb_modes / C01_source_programs on the regenerated facts; C01_model_is_program_denotation, "
     "C01_stor_prog_exact, C01_retr_prog_exact, C01_upload_prog_exact, C01_download_prog_exact, C01_upload_path_exact, "
     "C01_download_path_exact (about the translated programs); C01_timed_reads_conforming, C01_timed_stor_exact, "
@@ -75,8 +80,7 @@ LEVEL_NOTE = (
     "BufferedWriter flushing at close, StreamReader.read (assumption read_conforming: empty only at EOF) and async-with "
     "enter/exit order. Throttling, latency and stalls are inputs of the TIMED model (any wait/append functions, any arrival "
     "instants) and are proved not to change the bytes (C01_*_timing_irrelevant); that the real Throttle only sleeps and counts "
-    "(ThrottleStreamIO.read/write bodies) is a regenerated fact, and the sessions with throttles / latency / stalls sample it. Carved out by hypothesis: REST n + STOR/APPE on a MISSING file (C18/F6) and a second "
-    "transfer re-using the offset with no command in between (C05/F14)."
+    "(ThrottleStreamIO.read/write bodies) is a regenerated fact, and the sessions with throttles / latency / stalls sample it. Nothing is carved out since the repair of F14 and F06: back-to-back transfers and REST + upload on a missing file are inside the theorems and the corpus."
 )
 TRUSTED = [
     "read_conforming (hypothesis `conforming` of the model theorems): read(n>=1) of asyncio.StreamReader, io.BytesIO and a regular "
@@ -92,7 +96,7 @@ TRUSTED = [
 ASSUMPTIONS = [
     "modelled, not verified: TCP ordering, asyncio.StreamReader/StreamWriter, io.BytesIO, OS files and BufferedWriter, "
     "asyncio's async-with semantics; the tmpdir backends run on the local file system of the checking machine",
-    "carved out: 'r+b' on a missing file (C18), restart offset re-used by back-to-back transfers without an intervening command (C05)",
+    "no carve-out: 'r+b' on a missing file (451, nothing created) and back-to-back transfers (second one served from 0) are part of the statement",
 ]
 
 MODES = {"wb": 0, "ab": 1, "r+b": 2, "rb": 3}
@@ -870,7 +874,7 @@ def gen_session_cases(ctx, scale):
                 for old in olds:
                     for olabel, off in offsets_for(len(old or b"")):
                         if off and old is None:
-                            continue  # REST + STOR on a missing file: C18
+                            continue  # REST + STOR/APPE on a missing file (451, nothing created): stream (f), missing_restart_stream
                         if eff == 8192 and olabel not in ("0", "inside") and not thorough:
                             continue
                         chunks = rng.choice([[], [1], [2, 3], [eff], [max(1, eff - 1)], [eff + 1], [0, 5]])
@@ -1302,7 +1306,9 @@ def correspondence(ctx, scale=None):
         "end, beyond end) x verb (upload_stream, append_stream, download_stream, upload(), download()) x server block size (1,3,4,7,"
         "64,default) x client chunking x backend (MemoryPathIO, PathIO, AsyncPathIO, buffering slow-close) x EPSV/PASV x throttles "
         "x latency x mid-transfer stalls x segmentation (every split of payloads up to 5-6 bytes; byte-by-byte; random) on data and control channels x "
-        "pre-existing content (missing, shorter, equal, longer); (e) REST/TYPE/NOOP sequences before RETR vs offset_after; (b2) "
+        "pre-existing content (missing, shorter, equal, longer); (e) REST/TYPE/NOOP/RETR sequences (RETRs anywhere, also back to back over one passive listener; 5 fixed incl. the former F14 "
+        "witness + 45 random) vs transfer_trace and the offset oracle; (f) REST n + STOR/APPE on a missing file: 3 backends x 2 verbs x offsets "
+        "(1, 5, 0) x 3 payloads; (b2) "
         "timed read traces: 0-6 segments at non-decreasing instants (gaps 0..1000) x scripted wait delays (0..5000) x block size, real "
         "ThrottleStreamIO.read on the virtual clock vs timed_trace (blocks AND instants). A case "
         "is non-trivial when its full input tuple is distinct (hash); every session case moves real bytes through the real code."
